@@ -191,6 +191,15 @@ func (c *Config) valid() bool {
 		// the only faithful receivers of the proto-native lineage
 		return false
 	}
+	// version skew (a sender that declares no migration) is explored in the
+	// routes phase only: the same skewed sender directly and through relays
+	skew := false
+	for _, p := range c.procs() {
+		skew = skew || p.NoMig
+	}
+	if skew && c.Phase != "process" && !(c.Phase == "routes" && ok(c.Sender) && ok(c.Sender2) && c.Sender.NoMig && c.Sender2.NoMig && c.Sender2.Ver == c.Sender.Ver && !l.protoNative) {
+		return false
+	}
 	// a process without decoders is never a sender
 	sends := func(p *Proc) bool { return ok(p) && p.decodes() }
 	switch c.Phase {
@@ -476,6 +485,30 @@ type arrival struct {
 	fams []string
 	pay  []bool // per T layer: does the wire carry a payload
 	text string // the sender's Error()
+	// by: the version under whose names the T layers are keyed on the wire
+	// (model): the first name, or the sender's own if it declares no migration
+	by *version
+	// layers: everything the wire says, layer by layer
+	layers []layer
+}
+
+// wantFams is the model of the family names on the wire for an error of the
+// configured kind whose T layers are keyed under the names of version by.
+func (x *run) wantFams(by *version) []string {
+	rf := x.cfg.ref().fams
+	if by == x.lin.chain[0] {
+		return rf
+	}
+	out := append([]string{}, rf...)
+	for _, s := range spots(x.cfg.Kind) {
+		if i := s.at(len(out)); i >= 0 && i < len(out) {
+			out[i] = short(modelKey(by.typeOf(s.role).String()))
+			if x.lin.marker {
+				out[i] += "::" + markA
+			}
+		}
+	}
+	return out
 }
 
 // checkPayloadOnWire: with encoders on, every T layer crosses the wire with
@@ -527,7 +560,7 @@ func (x *run) send(s Proc, msg string, tag string) (a arrival) {
 				agrees = append(agrees, agree{sp.where, string(errors.GetTypeKey(at)), m.FamilyName, m.Extension, ls[i].Family, ls[i].Ext})
 			}
 		}
-		a.fams, a.pay = families(ls), payloads(kind, ls)
+		a.fams, a.pay, a.layers = families(ls), payloads(kind, ls), ls
 		a.wire, merr = proto.Marshal(&enc)
 	}) {
 		return arrival{}
@@ -540,9 +573,13 @@ func (x *run) send(s Proc, msg string, tag string) (a arrival) {
 	}
 	x.obs["wire_families"+tag] = a.fams
 	// (a) the wire key is name0's key, whatever the version and the order
-	x.check(reflect.DeepEqual(a.fams, x.cfg.ref().fams), "wirekey", s,
-		"sender %s encodes the error under the family names %v; the original code (and the model: every name of the type denotes name0) uses %v. GetTypeKey of its leaf type = %s, of its wrapper type = %s; its migration table: %s",
-		s, a.fams, x.cfg.ref().fams, short(tk["leaf"]), short(tk["wrap"]), table)
+	// (a sender that declares no migration: its own name)
+	a.by = s.keyed(x.lin)
+	root = a.by
+	want := x.wantFams(a.by)
+	x.check(reflect.DeepEqual(a.fams, want), "wirekey", s,
+		"sender %s encodes the error under the family names %v; the original code (and the model: every name of the type denotes name0, unless no migration is declared) uses %v. GetTypeKey of its leaf type = %s, of its wrapper type = %s; its migration table: %s",
+		s, a.fams, want, short(tk["leaf"]), short(tk["wrap"]), table)
 	for _, tp := range cur.protos() {
 		if !usesRole(kind, tp.role) {
 			continue
@@ -576,10 +613,13 @@ func (x *run) checkDecoded(p Proc, role string, got []seen, gotText string, a ar
 				"%s %s: the type mark of the %s layer of the decoded error (a %s) has the extension %q, the sender's instance had the marker %q",
 				role, p, s.where, got[i].typ, got[i].ext, markA)
 		}
-		if !p.decodes() {
+		if !p.decodes() || p.keyed(x.lin) != a.by {
 			who := "unknowing"
-			if p.NoDec {
+			switch {
+			case p.NoDec:
 				who = "decoder-less"
+			case p.knows():
+				who = "differently keyed (its decoders are under " + p.keyed(x.lin).typeOf(s.role).String() + ", the layer arrives under " + a.by.typeOf(s.role).String() + ")"
 			}
 			x.check(strings.HasPrefix(got[i].typ, "*errbase.opaque"), "decode-type", p,
 				"the %s %s %s decodes the %s layer to a %s, want an opaque type", who, role, p, s.where, got[i].typ)
@@ -638,20 +678,22 @@ func (x *run) relay(m Proc, a arrival) arrival {
 	kind := x.cfg.Kind
 	var got []seen
 	var gotText string
-	out := arrival{text: a.text}
+	out := arrival{text: a.text, by: a.by}
 	var uerr, merr error
 	masked, unmasked := 0, 0
+	var table string
 	if !x.view(m, "relay", func() {
 		var e error
 		if e, masked, uerr = x.decodeAt(m, a.wire); uerr != nil {
 			return
 		}
+		table = tableString()
 		got = observeSpots(kind, e)
 		gotText = e.Error()
 		enc := errors.EncodeError(context.Background(), e)
 		unmasked = unmaskPayload(&enc)
 		ls := layersOf(&enc)
-		out.fams, out.pay = families(ls), payloads(kind, ls)
+		out.fams, out.pay, out.layers = families(ls), payloads(kind, ls), ls
 		out.wire, merr = proto.Marshal(&enc)
 	}) {
 		return arrival{}
@@ -670,6 +712,16 @@ func (x *run) relay(m Proc, a arrival) arrival {
 	// (d) re-encoding preserves the wire key
 	x.check(reflect.DeepEqual(out.fams, a.fams), "reencode", m,
 		"intermediary %s received the family names %v and forwards %v", m, a.fams, out.fams)
+	// a layer that stayed opaque at m is forwarded exactly as it arrived
+	if len(a.layers) == len(out.layers) {
+		for i, s := range spots(kind) {
+			if j := s.at(len(out.layers)); j >= 0 && j < len(out.layers) && strings.HasPrefix(got[i].typ, "*errbase.opaque") {
+				x.check(a.layers[j] == out.layers[j], "reencode", m,
+					"intermediary %s, at which the %s layer stayed opaque (%s), received it as %+v and forwards it as %+v; its migration table: %s",
+					m, s.where, got[i].typ, a.layers[j], out.layers[j], table)
+			}
+		}
+	}
 	x.checkPayloadOnWire(m, "intermediary", out.pay)
 	return out
 }
@@ -720,7 +772,7 @@ func runTransfer(cfg *Config) *run {
 	var first, second look
 	// a2: what the receiver puts on the wire when it sends the error on
 	// (proto-native lineage: the second transfer)
-	a2 := arrival{text: a.text}
+	a2 := arrival{text: a.text, by: a.by}
 	retransfer := x.lin.protoNative && r.knows()
 	inspect := func(e error) (lk look, err error) {
 		lk.got = observeSpots(kind, e)
@@ -1182,6 +1234,8 @@ func lineageSuffix(name string) string {
 		return "|proto-native"
 	case name == markerName:
 		return "|marker"
+	case name == recvPVPName || name == recvVPVName:
+		return "|receiver-kind"
 	case name != "":
 		return "|generic"
 	}
@@ -1376,7 +1430,7 @@ func enumerate(c *core.Ctx, r *core.Result, l *lineage, samples *sampler, stop f
 		routes(routeRecvs, join(none, singles), []opts{{Enc: false, UPos: 0}, {Enc: true, UPos: 0}, {Enc: false, UPos: maxN}, {Enc: true, UPos: 1}})
 		return head + fmt.Sprintf(" The leaf is a proto.Message without decoder; only the newest name is in the (OS-process-global) protobuf registry, so RECEIVERS ARE AT V2 ONLY (%d plain specs, %d with observing ones) and the payload is opaque at every other intermediary (unknowing, V0, V1, Alt). process: every spec. transfer: every sender (plain or observing, %d: V0, V1, V2, Alt) x {no intermediary, each of %d plain} x every receiver at V2; every plain sender x every pair of plain intermediaries (%d) x plain receiver at V2; plain sender x observing intermediary x plain receiver at V2; each followed by a second transfer from the receiver. routes: every unordered pair of plain senders, second route via {none, each of %d}, x %s, 4 option combinations. Not explored: receivers at V0 / V1 / Alt that unmarshal the payload",
 			len(recvNew), len(recvNewAll), len(sendAll), len(others), len(pairs), len(others), routeNote)
-	case (l.name != "" && !l.marker) || c.Thorough():
+	case (l.name != "" && !l.marker && !l.recvKind) || c.Thorough():
 		// small lineages, and the thorough tier: the full product
 		transfers(sendAll, join(none, singles), recvAll, bools, uposs)
 		transfers(procs, pairs, others, bools, uposs)
@@ -1403,17 +1457,24 @@ func enumerate(c *core.Ctx, r *core.Result, l *lineage, samples *sampler, stop f
 	markers := append(append([]Proc{}, others...), nodecAll...)
 	extraUps := uposs
 	how := "every knowing spec without decoders"
-	if !c.Thorough() {
-		// V0, V1, the differently renamed code, and the longest chain
-		// declared oldest-first / newest-first
-		nodecSome = nil
-		for _, p := range nodecAll {
+	// pick: in the quick tier, V0, V1, the differently renamed code, and the
+	// longest chain declared oldest-first / newest-first
+	pick := func(ps []Proc) []Proc {
+		if c.Thorough() {
+			return ps
+		}
+		var out []Proc
+		for _, p := range ps {
 			whole := p.n() == maxN && !p.Direct
 			chrono := strings.HasSuffix(p.baseKey(), "chronological") || strings.HasSuffix(p.baseKey(), "newest-first") || strings.HasSuffix(p.baseKey(), "single")
 			if p.Ver == "V0" || p.Ver == "V1" || p.Ver == "Alt" || (whole && chrono) {
-				nodecSome = append(nodecSome, p)
+				out = append(out, p)
 			}
 		}
+		return out
+	}
+	if !c.Thorough() {
+		nodecSome = pick(nodecAll)
 		markers = append([]Proc{{Ver: unknowing}, {Ver: "V0"}}, nodecSome...)
 		extraUps = uposs[:1]
 		how = fmt.Sprintf("%d of them (V0, V1, differently renamed, longest chain oldest-first / newest-first)", len(nodecSome))
@@ -1438,7 +1499,34 @@ func enumerate(c *core.Ctx, r *core.Result, l *lineage, samples *sampler, stop f
 	kinds = []string{kindMid}
 	transfers(procs, join(none, singles, asMids(nodecSome)), opaqueRecvs, bools, extraUps)
 	routes(opaqueRecvs, none, twoOpts)
+	// version skew: a sender that has a later name but declares no
+	// migration, directly and through one relay (every plain spec: those that
+	// declared the rename have the arriving family name as the new name of a
+	// migration and no decoder under it; and the decoder-less ones), to a
+	// receiver that compares the two; every kind + the middle layer
+	kinds = l.allKinds()
+	skewed := skewedProcs(l)
+	skewRecvs := append([]Proc{{Ver: unknowing}}, pick(procs)...)
+	nSkew := 0
+	for _, kind := range kinds {
+		for si := range skewed {
+			if stop() {
+				break
+			}
+			recvs := append(append([]Proc{}, skewRecvs...), skewed[si])
+			for _, relay := range opaqueRecvs {
+				for ri := range recvs {
+					for _, o := range twoOpts {
+						execute(r, &Config{Phase: "routes", Lineage: l.name, Kind: kind, Sender: &skewed[si], Sender2: &skewed[si], Mids2: []Proc{relay}, Recv: &recvs[ri], Enc: o.Enc, UPos: o.UPos}, samples)
+						nSkew++
+					}
+				}
+			}
+		}
+	}
 	kinds = l.kinds
+	desc += fmt.Sprintf(". Version skew (routes): each of %d senders that have a later name but declare no migration (wire key = their own name) x {directly | through one relay: each of %d plain or decoder-less specs, where the layer must stay opaque unless the relay is keyed the same way, and be forwarded field for field} x receiver (unknowing, %d plain, the skewed process itself) x encoders {off,on}, kinds %v: %d configurations",
+		len(skewed), len(opaqueRecvs), len(skewRecvs)-1, l.allKinds(), nSkew)
 	return desc + fmt.Sprintf(". Decoder-less processes (migrations declared, no decoder for the lineage: what arrives stays opaque, local instances have the process's own types; %d specs): every sender x every decoder-less receiver; every sender x decoder-less intermediary (%s) x every plain receiver; routes to decoder-less receivers. mark: every sender x marking process (errors.Mark(new error, received) taken there and sent on; %d specs: unknowing, V0, decoder-less%s) x every plain receiver, kinds %v. kind %s (errors.WithMessage over the renamed wrapper over a leaf): every sender x {no intermediary, each of %d plain, decoder-less} x every plain or decoder-less receiver; routes: every unordered pair of senders x those receivers. Encoders {off,on} x unrelated-migration position %v",
 		len(nodecAll), how, len(markers), map[bool]string{true: ", every plain spec", false: ""}[c.Thorough()], l.allKinds(), kindMid, len(others), extraUps)
 }
@@ -1513,6 +1601,10 @@ func execute(r *core.Result, cfg *Config, samples *sampler) {
 			variant(runConfig(&d), "with the renamed wrapper as the outermost layer (kind wrapper)", "|middle-layer",
 				"the failure needs the renamed wrapper to be the middle layer of three")
 		}
+		if cfg.Sender != nil && cfg.Sender.NoMig {
+			key += "|version-skew"
+			msg += "\nversion skew: the sender declares no migration and names the type by the name that the processes which did declare the rename consider the new one"
+		}
 		if cfg.Lineage != "" {
 			key += lineageSuffix(cfg.Lineage)
 			msg += "\nlineage " + cfg.Lineage + ": the type names are " + cfg.lin().chain[0].leafName() + " etc."
@@ -1561,8 +1653,13 @@ func execute(r *core.Result, cfg *Config, samples *sampler) {
 		}
 	case cfg.Lineage == markerName:
 		r.Count("configurations-of-the-marker-lineage", 1)
+	case cfg.lin().recvKind:
+		r.Count("configurations-of-the-receiver-kind-lineages", 1)
 	case cfg.Lineage != "":
 		r.Count("configurations-of-generic-lineages", 1)
+	}
+	if cfg.Sender != nil && cfg.Sender.NoMig {
+		r.Count("configurations-with-version-skew", 1)
 	}
 	if cfg.Kind == kindMid {
 		r.Count("configurations-with-the-renamed-wrapper-in-the-middle-of-three-layers", 1)
